@@ -11,11 +11,14 @@
 (*             "strictly similar"), 2 moderate edit (only approximately    *)
 (*             similar), 3 rewritten (dissimilar), 4 emptied,              *)
 (*    outs |-> 0..7  output-list variant (code cells),                     *)
-(*    md   |-> 0..4  cell metadata variant (2..4 share a tags list that    *)
-(*             grows differently),                                         *)
+(*    md   |-> 0..5  cell metadata variant (2..4 share a tags list that    *)
+(*             grows differently; 5 carries the "nbdime-conflicts" record  *)
+(*             an earlier conflicted merge left behind),                   *)
 (*    ec   |-> 0..2  execution count variant,                              *)
 (*    att  |-> 0..3  attachments variant (markdown cells)]                 *)
-(* and an abstract notebook is [minor, nbmd, cells].  harness/concretize.py *)
+(* and an abstract notebook is [minor, nbmd, cells] (nbmd 0..4: notebook   *)
+(* metadata variant; 3 carries an "nbdime-conflicts" record, 4 is 3 with   *)
+(* the conflict resolved and the record removed).  harness/concretize.py   *)
 (* maps these to real notebooks, choosing content on either side of each   *)
 (* heuristic threshold of the differ.                                      *)
 (*                                                                         *)
@@ -58,7 +61,11 @@ Bases ==
                          Cell(4, 1, "code", 0, 0, 0, 0, 0) >> ],
     b5 |-> [minor |-> 0, nbmd |-> 0,
             cells |-> << Cell(1, 2, "markdown", 0, 0, 0, 0, 0) >>],
-    b6 |-> [minor |-> 5, nbmd |-> 1, cells |-> << >>] ]
+    b6 |-> [minor |-> 5, nbmd |-> 1, cells |-> << >>],
+    \* the product of an earlier conflicted merge: conflict records in the notebook and in a cell's metadata
+    b7 |-> [minor |-> 5, nbmd |-> 3,
+            cells |-> << Cell(1, 1, "code", 0, 1, 5, 1, 0),
+                         Cell(2, 2, "markdown", 0, 0, 0, 0, 0) >>] ]
 
 NewCids == {8, 9}          \* identities available to inserted / duplicated cells
 NewFams == {7, 8}          \* content families of inserted cells (both sides may pick the same)
@@ -130,7 +137,7 @@ Edits(nb) ==
   { <<[a |-> "EditOutputs", pos |-> i, v |-> v], SetField(i, "outs", v)>> :
       i \in {q \in 1..n : nb.cells[q].kind = "code"}, v \in 0..7 }
   \cup
-  { <<[a |-> "EditCellMeta", pos |-> i, v |-> v], SetField(i, "md", v)>> : i \in 1..n, v \in 0..4 }
+  { <<[a |-> "EditCellMeta", pos |-> i, v |-> v], SetField(i, "md", v)>> : i \in 1..n, v \in 0..5 }
   \cup
   { <<[a |-> "SetExecCount", pos |-> i, v |-> v], SetField(i, "ec", v)>> :
       i \in {q \in 1..n : nb.cells[q].kind = "code"}, v \in 0..2 }
@@ -138,7 +145,7 @@ Edits(nb) ==
   { <<[a |-> "EditAttachment", pos |-> i, v |-> v], SetField(i, "att", v)>> :
       i \in {q \in 1..n : nb.cells[q].kind = "markdown"}, v \in 0..3 }
   \cup
-  { <<[a |-> "EditNbMeta", v |-> v], [nb EXCEPT !.nbmd = v]>> : v \in 0..2 }
+  { <<[a |-> "EditNbMeta", v |-> v], [nb EXCEPT !.nbmd = v]>> : v \in 0..4 }
   \cup
   (IF nb.minor < 5 THEN { <<[a |-> "BumpMinor"], [nb EXCEPT !.minor = @ + 1]>> } ELSE {})
   \cup
@@ -176,11 +183,11 @@ Spec == Init /\ [][Next]_vars
 View == <<base, local, remote, nl, nr>>
 
 IsNb(nb) == /\ nb.minor \in 0..5
-            /\ nb.nbmd \in 0..2
+            /\ nb.nbmd \in 0..4
             /\ \A i \in 1..Len(nb.cells) :
                   /\ nb.cells[i].kind \in {"code", "markdown", "raw"}
                   /\ nb.cells[i].src \in 0..4 /\ nb.cells[i].outs \in 0..7
-                  /\ nb.cells[i].md \in 0..4 /\ nb.cells[i].ec \in 0..2 /\ nb.cells[i].att \in 0..3
+                  /\ nb.cells[i].md \in 0..5 /\ nb.cells[i].ec \in 0..2 /\ nb.cells[i].att \in 0..3
 TypeOK == IsNb(base) /\ IsNb(local) /\ IsNb(remote)
 
 UniqueCids == \A nb \in {base, local, remote} :
